@@ -1274,3 +1274,208 @@ Proof.
   - split; [split; [congruence|auto]|]. split; [intros _; lia|]. split; auto. intros y Hy; inversion Hy; auto.
   - split; [split; [discriminate|congruence]|]. split; [discriminate|]. split; auto. discriminate.
 Qed.
+
+(* ------------------------------------------------------------------ *)
+(* The forward scan: at most once per cycle, producers first (C01)      *)
+(* ------------------------------------------------------------------ *)
+Section ScanOrder.
+Variable cfgs : list ncfg.
+Variable beh : behaviour.
+
+Lemma node_at_upd_node_other i f p g : p <> i -> node_at p (upd_node i f g) = node_at p g.
+Proof. intros H. apply node_at_upd_other. auto. Qed.
+
+(* user code of node i touches no other node's state *)
+Lemma do_op_other i st opi o p g : p <> i -> node_at p (do_op cfgs i st opi o g) = node_at p g.
+Proof.
+  intros Hp. unfold do_op. destruct (negb (g_err g =? 0)); auto. cbn zeta.
+  destruct o.
+  - destruct (c_sched _); auto. destruct (schedule _ _ _ _ _) as [s' q].
+    rewrite node_at_emit, node_at_opt_schedule. apply node_at_upd_node_other; auto.
+  - destruct (c_sched _); auto. rewrite node_at_emit. apply node_at_upd_node_other; auto.
+  - destruct (c_sched _); auto. rewrite node_at_emit. apply node_at_upd_node_other; auto.
+  - destruct (c_sched _); auto. destruct (pop_tag _ _ _) as [s' w]. rewrite node_at_emit. apply node_at_upd_node_other; auto.
+  - destruct (c_sched _); auto. rewrite node_at_emit. apply node_at_upd_node_other; auto.
+  - destruct (_ && _); auto. rewrite node_at_emit, node_at_notify. apply node_at_upd_node_other; auto.
+  - apply node_at_schedule_node.
+  - reflexivity.
+  - reflexivity.
+Qed.
+
+Lemma do_ops_other i st os : forall opi p g, p <> i -> node_at p (do_ops cfgs i st opi os g) = node_at p g.
+Proof. induction os as [|o r IH]; intros opi p g Hp; simpl; auto. rewrite IH by auto. apply do_op_other; auto. Qed.
+
+Lemma eval_node_other i p g : p <> i -> node_at p (eval_node cfgs beh i g) = node_at p g.
+Proof.
+  intros Hp. unfold eval_node. destruct (negb (n_started (node_at i g))); auto. cbn zeta.
+  assert (TAIL : forall g1 (b : bool),
+     node_at p (if negb (g_err g1 =? 0) then g1 else
+        if c_sched (nth i cfgs dflt_cfg) then
+          (if b then let '(s', push) := advance (g_now g) (n_sch (node_at i g1)) in opt_schedule i push (upd_node i (set_sch s') g1)
+           else if is_scheduled (n_sch (node_at i g1)) then schedule_node i (next_scheduled_time (n_sch (node_at i g1))) g1 else g1)
+        else g1) = node_at p g1).
+  { intros g1 b. destruct (negb (g_err g1 =? 0)); auto. destruct (c_sched _); auto. destruct b.
+    - destruct (advance _ _) as [s' q]. rewrite node_at_opt_schedule. apply node_at_upd_node_other; auto.
+    - destruct (is_scheduled _); auto. apply node_at_schedule_node. }
+  rewrite TAIL.
+  destruct (match c_ins (nth i cfgs dflt_cfg) with [] => true | _ => ready (nth i cfgs dflt_cfg) g end); auto.
+  rewrite do_ops_other by auto. rewrite node_at_emit. apply node_at_upd_node_other; auto.
+Qed.
+
+(* nothing but the scan itself counts a graph-level evaluation *)
+Lemma do_op_evals i st opi o p g : n_evals (node_at p (do_op cfgs i st opi o g)) = n_evals (node_at p g).
+Proof.
+  destruct (Nat.eq_dec p i) as [->|Hp]; [|rewrite do_op_other; auto].
+  unfold do_op. destruct (negb (g_err g =? 0)); auto. cbn zeta.
+  assert (U : forall f g0, (forall x, n_evals (f x) = n_evals x) -> n_evals (node_at i (upd_node i f g0)) = n_evals (node_at i g0)).
+  { intros f g0 Hf. unfold node_at, upd_node; simpl. destruct (Nat.lt_ge_cases i (length (g_nodes g0))).
+    - rewrite nth_update_same by auto. apply Hf.
+    - rewrite !nth_overflow; auto. rewrite update_length; auto. }
+  destruct o.
+  - destruct (c_sched _); auto. destruct (schedule _ _ _ _ _) as [s' q].
+    rewrite node_at_emit, node_at_opt_schedule. apply U; auto.
+  - destruct (c_sched _); auto. rewrite node_at_emit. apply U; auto.
+  - destruct (c_sched _); auto. rewrite node_at_emit. apply U; auto.
+  - destruct (c_sched _); auto. destruct (pop_tag _ _ _) as [s' w]. rewrite node_at_emit. apply U; auto.
+  - destruct (c_sched _); auto. rewrite node_at_emit. apply U; auto.
+  - destruct (_ && _); auto. rewrite node_at_emit, node_at_notify. apply U; auto.
+  - apply f_equal. apply node_at_schedule_node.
+  - reflexivity.
+  - reflexivity.
+Qed.
+
+Lemma do_ops_evals i st os : forall opi p g, n_evals (node_at p (do_ops cfgs i st opi os g)) = n_evals (node_at p g).
+Proof. induction os as [|o r IH]; intros opi p g; simpl; auto. rewrite IH. apply do_op_evals. Qed.
+
+Lemma eval_node_evals i p g : n_evals (node_at p (eval_node cfgs beh i g)) = n_evals (node_at p g).
+Proof.
+  destruct (Nat.eq_dec p i) as [->|Hp]; [|rewrite eval_node_other; auto].
+  unfold eval_node. destruct (negb (n_started (node_at i g))); auto. cbn zeta.
+  assert (U : forall f g0, (forall x, n_evals (f x) = n_evals x) -> n_evals (node_at i (upd_node i f g0)) = n_evals (node_at i g0)).
+  { intros f g0 Hf. unfold node_at, upd_node; simpl. destruct (Nat.lt_ge_cases i (length (g_nodes g0))).
+    - rewrite nth_update_same by auto. apply Hf.
+    - rewrite !nth_overflow; auto. rewrite update_length; auto. }
+  assert (TAIL : forall g1 (b : bool),
+     n_evals (node_at i (if negb (g_err g1 =? 0) then g1 else
+        if c_sched (nth i cfgs dflt_cfg) then
+          (if b then let '(s', push) := advance (g_now g) (n_sch (node_at i g1)) in opt_schedule i push (upd_node i (set_sch s') g1)
+           else if is_scheduled (n_sch (node_at i g1)) then schedule_node i (next_scheduled_time (n_sch (node_at i g1))) g1 else g1)
+        else g1)) = n_evals (node_at i g1)).
+  { intros g1 b. destruct (negb (g_err g1 =? 0)); auto. destruct (c_sched _); auto. destruct b.
+    - destruct (advance _ _) as [s' q]. rewrite node_at_opt_schedule. apply U; auto.
+    - destruct (is_scheduled _); auto. apply f_equal. apply node_at_schedule_node. }
+  rewrite TAIL.
+  destruct (match c_ins (nth i cfgs dflt_cfg) with [] => true | _ => ready (nth i cfgs dflt_cfg) g end); auto.
+  rewrite do_ops_evals. rewrite node_at_emit. apply U; auto.
+Qed.
+
+Lemma len_upd_node i f g : length (g_nodes (upd_node i f g)) = length (g_nodes g).
+Proof. unfold upd_node; simpl. apply update_length. Qed.
+
+Lemma len_schedule_node i w g : length (g_nodes (schedule_node i w g)) = length (g_nodes g).
+Proof. destruct (schedule_node_spec i w g) as (_ & N & _). rewrite N. auto. Qed.
+
+Lemma len_opt_schedule i q g : length (g_nodes (opt_schedule i q g)) = length (g_nodes g).
+Proof. destruct q; simpl; auto. apply len_schedule_node. Qed.
+
+Lemma len_notify l : forall j src g, length (g_nodes (notify_from l j src g)) = length (g_nodes g).
+Proof. induction l as [|c r IH]; intros j src g; simpl; auto. rewrite IH. destruct (_ && _); auto. apply len_schedule_node. Qed.
+
+Lemma len_do_op i st opi o g : length (g_nodes (do_op cfgs i st opi o g)) = length (g_nodes g).
+Proof.
+  unfold do_op. destruct (negb (g_err g =? 0)); auto. cbn zeta.
+  destruct o.
+  - destruct (c_sched _); auto. destruct (schedule _ _ _ _ _) as [s' q]. simpl. rewrite len_opt_schedule. apply len_upd_node.
+  - destruct (c_sched _); auto. simpl. apply update_length.
+  - destruct (c_sched _); auto. simpl. apply update_length.
+  - destruct (c_sched _); auto. destruct (pop_tag _ _ _) as [s' w]. simpl. apply update_length.
+  - destruct (c_sched _); auto. simpl. apply update_length.
+  - destruct (_ && _); auto. simpl. rewrite len_notify. apply len_upd_node.
+  - apply len_schedule_node.
+  - reflexivity.
+  - reflexivity.
+Qed.
+
+Lemma len_do_ops i st os : forall opi g, length (g_nodes (do_ops cfgs i st opi os g)) = length (g_nodes g).
+Proof. induction os as [|o r IH]; intros opi g; simpl; auto. rewrite IH. apply len_do_op. Qed.
+
+Lemma len_eval_node i g : length (g_nodes (eval_node cfgs beh i g)) = length (g_nodes g).
+Proof.
+  unfold eval_node. destruct (negb (n_started (node_at i g))); auto. cbn zeta.
+  assert (TAIL : forall g1 (b : bool),
+     length (g_nodes (if negb (g_err g1 =? 0) then g1 else
+        if c_sched (nth i cfgs dflt_cfg) then
+          (if b then let '(s', push) := advance (g_now g) (n_sch (node_at i g1)) in opt_schedule i push (upd_node i (set_sch s') g1)
+           else if is_scheduled (n_sch (node_at i g1)) then schedule_node i (next_scheduled_time (n_sch (node_at i g1))) g1 else g1)
+        else g1)) = length (g_nodes g1)).
+  { intros g1 b. destruct (negb (g_err g1 =? 0)); auto. destruct (c_sched _); auto. destruct b.
+    - destruct (advance _ _) as [s' q]. rewrite len_opt_schedule. apply len_upd_node.
+    - destruct (is_scheduled _); auto. apply len_schedule_node. }
+  rewrite TAIL.
+  destruct (match c_ins (nth i cfgs dflt_cfg) with [] => true | _ => ready (nth i cfgs dflt_cfg) g end); auto.
+  rewrite len_do_ops. simpl. apply update_length.
+Qed.
+
+(* The scan from index k leaves every node before k untouched: a node that has had its
+   turn keeps its state (output value, last-modified time, counters) to the end of the
+   cycle - so what a later consumer reads is the producer's final value for the cycle. *)
+Lemma scan_prefix_final m : forall k g p, (p < k)%nat -> node_at p (scan cfgs beh k m g) = node_at p g.
+Proof.
+  induction m as [|m IH]; intros k g p Hp; simpl; auto.
+  destruct (negb (g_err g =? 0)); auto. rewrite IH by lia.
+  destruct (slot_at k g =? g_now g).
+  - rewrite eval_node_other by lia. rewrite node_at_upd_node_other by lia. reflexivity.
+  - destruct (g_now g <? slot_at k g); auto. destruct (slot_at k g <? g_nst g); auto.
+Qed.
+
+(* and no node at or after k is counted more than once by the scan from k *)
+Lemma scan_evals_le m : forall k g p,
+  (p < length (g_nodes g))%nat ->
+  n_evals (node_at p g) <= n_evals (node_at p (scan cfgs beh k m g)) <= n_evals (node_at p g) + (if (k <=? p)%nat then 1 else 0).
+Proof.
+  induction m as [|m IH]; intros k g p Hl; simpl.
+  - destruct (k <=? p)%nat; lia.
+  - destruct (negb (g_err g =? 0)); [destruct (k <=? p)%nat; lia|].
+    set (g' := if slot_at k g =? g_now g then _ else _).
+    assert (Hl' : (p < length (g_nodes g'))%nat).
+    { unfold g'. destruct (slot_at k g =? g_now g).
+      - rewrite len_eval_node. unfold upd_node; simpl. rewrite update_length. exact Hl.
+      - destruct (g_now g <? slot_at k g); auto. destruct (slot_at k g <? g_nst g); auto. }
+    specialize (IH (S k) g' p Hl').
+    assert (E : n_evals (node_at p g') = n_evals (node_at p g) + (if (slot_at k g =? g_now g) && (p =? k)%nat then 1 else 0)).
+    { unfold g'. destruct (slot_at k g =? g_now g) eqn:Es; simpl.
+      - rewrite eval_node_evals. destruct (Nat.eq_dec p k) as [->|Hne].
+        + rewrite Nat.eqb_refl. rewrite node_at_upd_same by (simpl; auto). simpl. reflexivity.
+        + replace (p =? k)%nat with false by (symmetry; apply Nat.eqb_neq; auto).
+          rewrite node_at_upd_node_other by auto. rewrite node_at_emit. lia.
+      - destruct (g_now g <? slot_at k g); [destruct (slot_at k g <? g_nst g)|]; simpl; unfold node_at; simpl; lia. }
+    destruct (Nat.leb_spec k p), (Nat.leb_spec (S k) p); destruct (slot_at k g =? g_now g); simpl in E;
+      try (destruct (Nat.eqb_spec p k)); simpl in E; try lia.
+Qed.
+End ScanOrder.
+
+(* ---- C01 statements in the shape the property file uses ---- *)
+Lemma evaluated_at_most_once_l cfgs beh t g p :
+  (p < length (g_nodes g))%nat ->
+  n_evals (node_at p g) <= n_evals (node_at p (evaluate_graph cfgs beh t g)) <= n_evals (node_at p g) + 1.
+Proof.
+  intros H. unfold evaluate_graph.
+  set (g0 := mkG t (g_slots g) MAX_DT (g_nodes g) ([10; t] :: g_log g) (g_err g)).
+  pose proof (scan_evals_le cfgs beh (length cfgs) 0%nat g0 p H) as X.
+  simpl in X. exact X.
+Qed.
+
+Lemma producers_final_l cfgs beh i s m g :
+  well_ranked cfgs -> (i < length cfgs)%nat -> In s (c_ins (cfg cfgs i)) ->
+  node_at (i_src s) (scan cfgs beh i m g) = node_at (i_src s) g.
+Proof. intros WR Hi Hs. apply scan_prefix_final. apply (WR i s Hi Hs). Qed.
+
+Lemma notify_only_later_l cfgs src g k :
+  well_ranked cfgs -> slot_at k (notify_from cfgs 0 src g) <> slot_at k g -> (src < k)%nat.
+Proof.
+  intros WR H. destruct (notify_only_active cfgs 0%nat src g k H) as (m & c & A & B & C).
+  simpl in B. subst m. apply existsb_exists in C. destruct C as [s [Hs Es]].
+  assert (Hk : (k < length cfgs)%nat) by (apply nth_error_Some; rewrite A; discriminate).
+  assert (Hc : c = cfg cfgs k) by (unfold cfg; symmetry; apply nth_error_nth; auto).
+  subst c. pose proof (WR k s Hk Hs). lia.
+Qed.
